@@ -4,8 +4,12 @@
 package parties
 
 import (
+	"errors"
+	"context"
 	"fmt"
 	"io"
+	"io/fs"
+	"os"
 
 	"verif/sim/core"
 )
@@ -50,6 +54,7 @@ type SimReader struct {
 	FirstErrWith int // bytes delivered up to and including the first failing call
 	FirstErr     error
 	zeros        int
+	stutter      bool
 }
 
 func NewSimReader(data []byte, ops []ReadOp, ctx *core.Ctx) *SimReader {
@@ -113,6 +118,18 @@ func (r *SimReader) read(p []byte) (int, error) {
 		}
 		r.fault("read_one_byte")
 		return give(1), nil
+	case "stutter":
+		// an empty read before every single byte: progress all the time, never two empty
+		// reads in a row, hundreds of them per packet
+		if rem == 0 {
+			return 0, io.EOF
+		}
+		r.stutter = !r.stutter
+		if r.stutter {
+			r.fault("read_zero")
+			return 0, nil
+		}
+		return give(1), nil
 	case "zero":
 		if rem == 0 {
 			return 0, io.EOF
@@ -143,6 +160,16 @@ func (r *SimReader) read(p []byte) (int, error) {
 			e = io.ErrUnexpectedEOF
 		case "weof":
 			e = fmt.Errorf("upstream closed: %w", io.EOF) // not io.EOF itself, but errors.Is(e, io.EOF)
+		case "closedpipe":
+			e = io.ErrClosedPipe
+		case "osclosed":
+			e = &fs.PathError{Op: "read", Path: "/dev/dvb/adapter0/dvr0", Err: os.ErrClosed}
+		case "noprogress":
+			e = io.ErrNoProgress
+		case "canceled":
+			e = context.Canceled
+		case "deadline":
+			e = os.ErrDeadlineExceeded // Timeout() == true
 		}
 		if r.FirstErr == nil {
 			r.FirstErr, r.FirstErrAt, r.FirstErrWith = e, before, r.pos
@@ -166,6 +193,20 @@ func (r *SimReader) fault(kind string) {
 		r.ctx.Fault(kind)
 	}
 }
+
+// IsReaderFault reports whether err is (or wraps) an error a SimReader injects: its own
+// InjectedErr, or one of the well-known sentinel values a reader fault may carry instead
+// (a closed pipe or file, no progress, a cancelled context, a deadline). The EOF-like values
+// ("ueof", "weof") are not included: only C18 uses those, with its own bookkeeping.
+func IsReaderFault(err error) bool {
+	var inj *InjectedErr
+	return errors.As(err, &inj) || errors.Is(err, io.ErrClosedPipe) || errors.Is(err, os.ErrClosed) ||
+		errors.Is(err, io.ErrNoProgress) || errors.Is(err, context.Canceled) || errors.Is(err, os.ErrDeadlineExceeded)
+}
+
+// SentinelAs are the values GenReadOps may give a reader fault instead of a distinct injected
+// error.
+var SentinelAs = []string{"closedpipe", "osclosed", "noprogress", "canceled", "deadline"}
 
 // HasErrOps reports whether the op list contains an error outcome at all.
 func HasErrOps(ops []ReadOp) bool {
@@ -215,6 +256,9 @@ func GenReadOps(r *core.Rand, n int, style string, withErr bool) []ReadOp {
 			k = "hard_err"
 		}
 		e := ReadOp{Kind: k, N: r.Pick(0, 0, 1, 3, 4, 100, 187, 188)}
+		if r.Chance(1, 4) {
+			e.As = SentinelAs[r.Intn(len(SentinelAs))] // a reader may fail with any value, also a famous one
+		}
 		at := 0
 		if len(ops) > 0 {
 			at = r.Intn(len(ops) + 1)
